@@ -241,7 +241,7 @@ def run(facts, tier):
         "one ordered choice that start with the same recursive non-terminal; R03-3 recursion cycles (SCCs of the call "
         "graph) without a depth or visited guard.")
     res.assumptions = [
-        "unwind edges ignored; RefCell borrow panics and allocation failure not claimed",
+        "unwind edges ignored; RefCell conflicts are claimed only where a live RefMut / Ref and the conflicting call are in one function (R03-5); allocation failure not claimed",
         "call graph over-approximated: trait-method calls expanded to all workspace impls, fn items passed as "
         "arguments are callable by the receiver, std generic code forwards to the user impls of the same trait",
         "time and stack bounds are not computed; only their two structural causes are reported",
@@ -268,4 +268,6 @@ def run(facts, tier):
     xreach, _ = facts.reachable([facts.fn("xml_info::attr_value_from_name")["id"]])
     guards.rule(facts, res, "R03-3g", [facts.fns[x] for x in set(reach) | set(xreach) if x in facts.fns], want=("G1", "G2"), floor=1)
     r03_4(facts, res, reach)
+    import borrowck
+    borrowck.rule(facts, res, "R03-5", reach, floor=10)
     return res
